@@ -40,6 +40,46 @@ def run_rxdiff(res, repo, specs, maxlen):
         res.crashes.append('regex model disagrees with CPython re: %s' % json.dumps(out['disagreements'][:2]))
 
 
+def run_ground(res, repo, task, findings):
+    env = dict(os.environ)
+    env.pop('PYTHONPATH', None)
+    env['PYTHONWARNINGS'] = 'ignore'
+    p = subprocess.run([D.VENV_PY, os.path.join(D.VERIF, 'pyvc', 'ground_native.py'), repo, D.VERIF, task],
+                       capture_output=True, text=True, timeout=3000, env=env)
+    try:
+        out = json.loads(p.stdout.strip().split('\n')[-1])
+    except Exception:
+        res.crashes.append('ground task %s failed: %s' % (task, (p.stdout + p.stderr)[-600:]))
+        return None
+    viol = out.pop('violations', [])
+    out['task'] = task
+    out['exhaustive'] = True
+    out['violations'] = len(viol)
+    res.ground.append(out)
+    new = []
+    for v in viol:
+        known = [f for f in findings if f['property'] == res.pid and f.get('ground') == task and
+                 all(v.get(k) == val for k, val in f.get('match', {}).items())]
+        if known:
+            line = 'KNOWN-FINDING: property=%s %s' % (res.pid, known[0]['what'])
+            if line not in res.known:
+                res.known.append(line)
+            res.excluded_by_known.append('ground:%s:%s' % (task, json.dumps(known[0].get('match', {}), sort_keys=True)))
+        else:
+            new.append(v)
+    if new:
+        rdir = os.environ.get('PYVC_REPLAY_DIR') or os.path.join('replay')
+        path = os.path.join(rdir, res.pid, 'ground-%s.json' % task)
+        os.makedirs(os.path.join(D.VERIF, os.path.dirname(path)) if not os.path.isabs(path) else os.path.dirname(path), exist_ok=True)
+        full = path if os.path.isabs(path) else os.path.join(D.VERIF, path)
+        json.dump({'property': res.pid, 'obligation': 'ground:%s' % task, 'violations': new[:200],
+                   'how': '/venv/bin/python pyvc/ground_native.py %s %s %s' % (repo, D.VERIF, task)}, open(full, 'w'), indent=1)
+        res.violations.append({'obligation': 'ground:%s' % task, 'replay': path, 'confirmed': True,
+                               'detail': '%d ground facts fail on the shipped configuration, first: %s' % (len(new), json.dumps(new[0])[:300]),
+                               'witness': new[0]})
+    return out
+
+
 def main(argv):
     ap = argparse.ArgumentParser()
     ap.add_argument('prop')
@@ -86,6 +126,8 @@ def main(argv):
             res.extra['cpython_crosscheck'] = cc
         if P.get('rxdiff'):
             run_rxdiff(res, a.repo, P['rxdiff'], 7 if a.tier == 'quick' else 9)
+        for task in P.get('ground', []):
+            run_ground(res, a.repo, task, findings)
         for hook in P.get('extra', []):
             hook(res, a, opts)
         cmd = './check %s --tier %s' % (a.prop, a.tier)
